@@ -31,6 +31,12 @@ func relInput(c *core.Ctx, p *population, idx int) (data []byte, desc string, fi
 				Preview: append([]byte{0xFF, 0xD8}, r.Bytes(n)...), PrvwW: 1620, PrvwH: 1080, NoMdat: true}, 0, false)
 			return cr.Bytes, fmt.Sprintf("cr3 preview-last preview=%d len=%d", n+2, len(cr.Bytes)), -2
 		}
+		if r.Chance(1, 8) {
+			// one tiny unit, hundreds to thousands of times: unit boundaries meet the 4 KiB windows
+			// of the buffered readers in every phase
+			d, ds := gen.TileShape(r, r.Range(6000, 40000))
+			return d, ds, -2
+		}
 		d, ds := gen.Shape(r)
 		return d, ds, -2
 	case k < 4:
@@ -90,7 +96,7 @@ type C08 struct {
 func (e *C08) ID() string    { return "C08" }
 func (e *C08) Level() string { return "fault_enumeration" }
 func (e *C08) Rule() string {
-	return "each case is one input x (valid corpus/generated file of every container, a truncation at a structure boundary, inside an out-of-line value or at a random point, a 1-2 operator malformation, or a grammar-based shape) run through its natural entry points plus one random one, first over an in-memory reader and then over every chunk schedule of a fixed list (1 byte at a time; 2; 3; 7; the cycle 1,2,3,7,8,9,63,64,65,511,4095,4096,4097; 4095; 4096; 4097; 64,1; 5,1000; 13; 511,1,1,1; 65536; 8192,100; each also with the last bytes delivered together with io.EOF; and whole requests honoured in full with the last bytes delivered together with io.EOF, which is what reaches a buffered reader's direct-read path) plus a seeded random schedule, all with a working Seek and pristine library state before each call. Oracle: canonical observation (values and error text) identical to the in-memory run. Zero-length reads are never produced. Non-trivial: the chunked run performed >=2 short reads; distinct = (entry, schedule, outcome class)."
+	return "each case is one input x (valid corpus/generated file of every container, a truncation at a structure boundary, inside an out-of-line value or at a random point, a 1-2 operator malformation, or a grammar-based shape, among them one tiny unit tiled to 6..40 KB) run through its natural entry points plus one random one, first over an in-memory reader and then over every chunk schedule of a fixed list (1 byte at a time; 2; 3; 7; the cycle 1,2,3,7,8,9,63,64,65,511,4095,4096,4097; 4095; 4096; 4097; 64,1; 5,1000; 13; 511,1,1,1; 65536; 8192,100; each also with the last bytes delivered together with io.EOF; and whole requests honoured in full with the last bytes delivered together with io.EOF, which is what reaches a buffered reader's direct-read path) plus a seeded random schedule, all with a working Seek and pristine library state before each call. Oracle: canonical observation (values and error text) identical to the in-memory run. Zero-length reads are never produced. Non-trivial: the chunked run performed >=2 short reads; distinct = (entry, schedule, outcome class)."
 }
 func (e *C08) Assumptions() []string {
 	return []string{"schedules are enumerated from a fixed list for every input; the input population is seeded", "1-byte schedules are applied to inputs up to 96 KiB (the corpus cap)"}
